@@ -17,6 +17,7 @@ fn main() {
         "der" => vharness::der::replay(&args[2], &mut out),
         "names" => vharness::names::replay(&args[2], &mut out),
         "protoprim" => vharness::protoprim::replay(&args[2], &mut out),
+        "converter" => vharness::converter::replay(&args[2], &mut out),
         "derfault" => {
             let kv: Kv = args[4..].iter().filter_map(|a| a.split_once('=').map(|(k, v)| (k.to_string(), v.to_string()))).collect();
             vharness::der::fault(&args[2], &mut out, &kv)
